@@ -249,7 +249,7 @@ func c05Run(b *core.B) {
 	r := b.Rng(5)
 	n := 6000
 	if b.Tier == core.Thorough {
-		n = 400000
+		n = 3000000
 	}
 	for i := 0; i < n/b.NBatches; i++ {
 		f := c05Faults[r.Intn(len(c05Faults))]
